@@ -6,11 +6,13 @@ package main
 
 import (
 	"fmt"
+	metav1 "k8s.io/apimachinery/pkg/apis/meta/v1"
 	"math/rand/v2"
 	"runtime"
 	"sort"
 	"strings"
 	"sync"
+	"time"
 
 	"github.com/go-logr/logr"
 	extv1 "k8s.io/apiextensions-apiserver/pkg/apis/apiextensions/v1"
@@ -348,6 +350,17 @@ func pairCase(r *rand.Rand, res *result) {
 			}
 			newX.Spec.Versions[g.n(len(newX.Spec.Versions))].Referenceable = true
 		}
+	}
+	// a quarter of the pairs are updates of an XRD that has been deleted but is still held by its
+	// finalizers: the names are just as immutable while it is terminating
+	if g.p(0.25) {
+		ts := metav1.NewTime(time.Unix(1700000000, 0))
+		oldX = oldX.DeepCopy()
+		for _, x := range []*v1.CompositeResourceDefinition{oldX, newX} {
+			x.SetDeletionTimestamp(&ts)
+			x.SetFinalizers([]string{"defined.apiextensions.crossplane.io", "offered.apiextensions.crossplane.io"})
+		}
+		t.add("pairs_terminating_xrd", 1)
 	}
 	t.add("pairs_class_"+class, 1)
 	res.fp = kit.JSON(oldX) + "|" + kit.JSON(newX)
